@@ -712,7 +712,7 @@ class Outcome:
 
 def run_config(config, bundle, request, world, stream, policy=None,
                instrumentation_factory=None, middlewares_factory=None,
-               max_steps=20000):
+               max_steps=200000):
     """Execute ``request`` (dict: text, variables, operation_name) under one
     configuration with the schedule decided by ``stream``."""
     mode = MODE_OF[config]
@@ -844,7 +844,7 @@ def run_config(config, bundle, request, world, stream, policy=None,
                        "mean": (2, 5, 20, 60)[stream.below(4, "rw-mean")],
                        "hot_den": (2, 3, 6, 12)[stream.below(4, "rw-hot")]}
             sim = _th.ThreadSim(kernel, TRACED_FILES, nworkers, pol,
-                                max_steps=400000)
+                                max_steps=4000000)
             out.l2 = sim
             rt = ThreadPoolRuntime(max_workers=1)
             rt._inner.shutdown(wait=False)
@@ -917,7 +917,7 @@ def _settle_and_close(loop, kernel):
 
 
 def run_overlapped(config, bundle, requests, worlds, stream, policy=None,
-                   max_steps=40000, shared_instrumentation=False):
+                   max_steps=400000, shared_instrumentation=False):
     """Execute several requests *concurrently* against one schema object on
     one simulated loop / pool.  Each request has its own context (req_id) and
     its own recording instrumentation; all share the kernel and its log.
